@@ -3,6 +3,10 @@
  * White-box: crypto_aesctr.c is #included so that struct crypto_aesctr (bytectr / pblk / buf) and the
  * static hwaccel choice can be printed as L2.  With -DH_AES_RK (AES-NI build) crypto_aes_aesni.c is
  * #included as well and `expand` prints the round keys.
+ * With -DHC_BLACKBOX (notes/blackbox.md) nothing of the library is #included (crypto_aesctr.c and, on the
+ * AES-NI build, crypto_aes_aesni.c are separate units): the public functions only, the L1 part of every line
+ * only; `seek` (a store into the private struct) answers `skip` and is not sent in that mode (bb_skip_ops);
+ * buf[] / pblk[8..14] of a fresh stream object are not pre-set (they only show in the L2 part).
  */
 #define _DEFAULT_SOURCE 1
 #include "hcommon.h"
@@ -11,9 +15,14 @@
 #include <unistd.h>
 
 #include "crypto_aes.h"
+#ifdef HC_BLACKBOX
+#include "crypto_aesctr.h"
+#undef H_AES_RK
+#else
 #include "crypto_aesctr.c"
 #ifdef H_AES_RK
 #include "crypto_aes_aesni.c"
+#endif
 #endif
 
 #define MAXKEYS 64
@@ -55,6 +64,11 @@ expand(const char * hex)
 	return (k);
 }
 
+#ifdef HC_BLACKBOX
+/* no L2 part; a fresh stream object is left as the library made it */
+#define print_l2()	do {} while (0)
+#define PRESET_RAW(S)	do {} while (0)
+#else
 static void
 print_l2_fields(void)
 {
@@ -72,6 +86,16 @@ print_l2(void)
 	printf(" |");
 	print_l2_fields();
 }
+
+/*
+ * buf[] and pblk[8..14] of a fresh allocation are indeterminate; pick the value the model's `raw` uses so
+ * that L2 can print them.
+ */
+#define PRESET_RAW(S)	do {				\
+	memset((S)->buf, 0xa5, 16);			\
+	memset((S)->pblk + 8, 0xa5, 7);			\
+} while (0)
+#endif
 
 static uint64_t
 fnv1a(const uint8_t * b, size_t n)
@@ -150,8 +174,10 @@ bigstream(uint64_t nonce, size_t n, size_t tail, int again)
 	size_t maplen = (n + page - 1) / page * page;
 	uint8_t * map, * p, * tin, * tout;
 	size_t k, pos, l, bad;
+#ifndef HC_BLACKBOX
 	uint64_t ctr1;
 	uint8_t pblk1[16], buf1[16];
+#endif
 
 	map = mmap(NULL, maplen + page, PROT_READ | PROT_WRITE, MAP_PRIVATE | MAP_ANONYMOUS | MAP_NORESERVE, -1, 0);
 	if (map == MAP_FAILED || mprotect(map + maplen, page, PROT_NONE) != 0)
@@ -161,14 +187,15 @@ bigstream(uint64_t nonce, size_t n, size_t tail, int again)
 	crypto_aesctr_free(S);
 	if ((S = crypto_aesctr_init(curkey, nonce)) == NULL)
 		abort();
-	memset(S->buf, 0xa5, 16);	/* as in `init` */
-	memset(S->pblk + 8, 0xa5, 7);
+	PRESET_RAW(S);		/* as in `init` */
 
 	alarm(900);		/* a call that never returns is a failure, not a hang of the check */
 	crypto_aesctr_stream(S, p, p, n);
+#ifndef HC_BLACKBOX
 	ctr1 = S->bytectr;
 	memcpy(pblk1, S->pblk, 16);
 	memcpy(buf1, S->buf, 16);
+#endif
 
 	printf("n=%zu", n);
 	big_window(p, n, 0, 64);
@@ -216,12 +243,14 @@ bigstream(uint64_t nonce, size_t n, size_t tail, int again)
 	}
 	alarm(0);
 
+#ifndef HC_BLACKBOX
 	printf(" | ctr=%llu pblk=", (unsigned long long)ctr1);
 	hc_puthex(pblk1, 16);
 	printf(" buf=");
 	hc_puthex(buf1, 16);
 	printf(" then");
 	print_l2_fields();
+#endif
 	if (munmap(map, maplen + page) != 0)
 		abort();
 }
@@ -295,12 +324,7 @@ main(void)
 				crypto_aesctr_free(S);
 				if ((S = crypto_aesctr_init(curkey, nonce)) == NULL)
 					abort();
-				/*
-				 * buf[] and pblk[8..14] of a fresh allocation are indeterminate; pick
-				 * the value the model's `raw` uses so that L2 can print them.
-				 */
-				memset(S->buf, 0xa5, 16);
-				memset(S->pblk + 8, 0xa5, 7);
+				PRESET_RAW(S);
 				printf("ok");
 				print_l2();
 			}
@@ -349,6 +373,10 @@ main(void)
 			/* white-box jump to block nb > 0: the state streaming 16*nb bytes produces (see Driver/Aes.lean) */
 			uint64_t nb = strtoull(hc_tok[1], NULL, 10);
 
+#ifdef HC_BLACKBOX
+			(void)nb;
+			printf("skip");		/* needs the private struct: cases with `seek` are not run in this mode */
+#else
 			if (S == NULL || nb == 0)
 				printf("skip");
 			else {
@@ -357,6 +385,7 @@ main(void)
 				printf("ok");
 				print_l2();
 			}
+#endif
 		} else if (hc_is("streamzero", 1)) {
 			if (S == NULL)
 				printf("skip");
